@@ -5,6 +5,10 @@ ROOT = os.path.dirname(os.path.dirname(os.path.abspath(__file__)))
 
 # id -> (technique, level text, level note, design ref)
 CHECKS = {
+ "C07": ("robustness search with an end-of-render state invariant (cfg-guarded hook) and an exhaustive reference-injection enumeration: generated valid programs rendered with hostile contexts in crash-isolated workers (oracle: Ok(valid UTF-8) or Err, empty engine stacks after success, no missing-reference failure at render time); every unknown filter/test/function/component/include/parent/block spelled in every syntactic position must be rejected at add time while the same position with a known name is accepted",
+         "Exploration: 440k generated renders per quick run (x20 thorough): expressions placing each of the 55 built-ins with arbitrary keyword subsets over hostile values (invalid UTF-8 bytes, 64/128-bit extremes, NaN/inf/-0, explicit undefined in containers, non-string keys, maps past the scan cutoff, 23-element mixed arrays), C02 expressions and C03 programs under the same contexts, inheritance+component sets rendered whole/by block/by component; 7 very large values through every built-in; 11.7k injections (8 expression references x 33 expression positions x 19 statement positions, 5 statement references x 19, 6 whole-template cases, each unknown + known control).",
+         "Trusted base: the hook check_state_empty in tera/src/verif.rs and the process supervisor. Programs whose reference evaluation exceeds a work budget are discarded before the engine runs (counted); worker timeouts are inconclusive.",
+         "DESIGN.md section 4 C07"),
  "C06": ("crash-isolated robustness search: generated token soup (default and generated delimiter sets), token-level mutation/splicing and exhaustive prefix truncation of the repository's snapshot inputs, generated template names, and an enumeration of deep/flat/chain shapes each in its own process on an 8 MiB stack; the oracle is returns-Ok-or-Err (error must format), observed from a supervisor that pinpoints any worker death by re-running the shard in trace mode",
          "Exploration: 2.5M generated inputs per quick run (x20 thorough) of which >85% contain a start delimiter and reach the parser, 38k prefixes (exhaustive over 248 seed files), 30 nesting forms x 10 depths up to 100000, 19 flat shapes up to 100000 elements, 12 chain forms up to 100000 links.",
          "Trusted base: the process supervisor (signals/timeouts) in harness/src/core.rs. Reference environment: optimised build, 8 MiB stack for the deep family; timeouts are inconclusive. Known findings: 11 chain forms overflow the stack, the unknown-reference report is quadratic (probed at 3000 occurrences, larger shapes excluded).",
